@@ -785,6 +785,31 @@ def _bsearch(w, m, st, callee, args, term):
     return ip.err(idx)
 
 
+def _slice_get(w, m, st, callee, args, term):
+    """slice.get(i): Some(&elem) when i is the Ok payload of a binary search on that very slice (always in
+    bounds), otherwise either answer."""
+    sl, idx = args
+    tab = slice_ident(m, st, sl)
+    v = deref_all(m, st, sl)
+    known = isinstance(idx, Sym) and tab is not None and st.facts.get(("idx-of", idx.name)) == tab
+    if not known and w.decide(st, "get", ["None", "Some"]) == "None":
+        return ip.none()
+    if isinstance(v, Opq) and v.kind == "static":
+        s_ = w.prog.statics.get(v.data[0])
+        mm = re.match(r"^\[(.*);\s*\d+\]$", s_["ty"]) if s_ else None
+        ety = mm.group(1) if mm else "?"
+    elif isinstance(sl, Ref) and sl.loc[0] == "static":
+        s_ = w.prog.statics.get(sl.loc[1])
+        mm = re.match(r"^\[(.*);\s*\d+\]$", s_["ty"]) if s_ else None
+        ety = mm.group(1) if mm else "?"
+    else:
+        ety = "?"
+        if isinstance(v, Opq) and v.kind == "fresh-ref" and isinstance(v.data, tuple):
+            mm = re.match(r"^\[(.*)\]$", str(v.data[0]))
+            ety = mm.group(1) if mm else "?"
+    return ip.some(Ref(("val", ty_.fresh(w.prog, ety, ("elem", w.n(st))))))
+
+
 def _for_each(w, m, st, callee, args, term):
     it, f = args
     w.probe(m, st, f, [_elem_of(w, m, st, f, "item")])
@@ -817,6 +842,7 @@ def _lazy_get(w, m, st, callee, args, term):
 
 SPECIAL = {
     "core::slice::<impl [T]>::binary_search_by": _bsearch,
+    "core::slice::<impl [T]>::get": _slice_get,
     "core::iter::traits::iterator::Iterator::for_each": _for_each,
     "core::iter::range::<impl core::iter::traits::iterator::Iterator for core::ops::range::RangeInclusive<A>>::next": _ri_next,
     "core::str::<impl str>::char_indices": _char_indices,
